@@ -128,7 +128,7 @@ func sameStructure(kind int, a, b string) string {
 		}
 		for i := range ta {
 			if ta[i].Key != tb[i].Key || ta[i].Val != tb[i].Val {
-				return fmt.Sprintf("text token %d differs: %s=%s vs %s=%s", i, ta[i].Key, ta[i].Val, tb[i].Key, tb[i].Val)
+				return fmt.Sprintf("text token %d differs: %q=%q vs %q=%q", i, ta[i].Key, ta[i].Val, tb[i].Key, tb[i].Val)
 			}
 		}
 	case 2:
@@ -352,7 +352,7 @@ func main() {
 				Message: f.Msg + "\nhistory: " + strings.Join(f.Ops, " ; "), Witness: map[string]any{"ops": f.Ops, "handler": handlerNames[kind]}})
 		}
 	}
-	if nontriv == 0 && len(viols) == 0 {
+	if nontriv == 0 && len(viols) == 0 && complete {
 		vcommon.Infra("vacuous: no history in which a parent with spare buffer capacity got two children")
 	}
 	cov["states"] = cov["states"].(int) + states
